@@ -121,12 +121,16 @@ def gen(rng, tier, open_keys):
 
 
 def corpus():
-    return ["(setexcl (variant again) (n 5))", "(setexcl (variant withlock) (n 4))","(set (mk 0 0) (add s0 3) (add s0 1) (sortq s0 lt) (del s0 1) (iter s0) (len s0))",
+    return ["(setexcl (variant again) (n 5))", "(setexcl (variant withlock) (n 4))", "(setexcl (variant equal) (ordered 0))", "(setexcl (variant equal) (ordered 1))","(set (mk 0 0) (add s0 3) (add s0 1) (sortq s0 lt) (del s0 1) (iter s0) (len s0))",
             "(set (mk 1 0) (mk 1 0) (add s0 1) (add s0 2) (add s1 2) (add s1 1) (equal s0 s1) (sortm s1 lt) (equal s0 s1))",
             "(set (mk 1 1) (add s0 5) (add s0 2) (add s0 5) (del s0 5) (add s0 5) (iter s0) (json s0))"]
 
 
 def predicate(line, obs, allow_known=False):
+    if line.startswith("(setexcl (variant equal)"):
+        return None if obs == "excl equal-true=0" else (
+            "Equal({1,2}, {1,3}) answered true while a Delete(2) on the receiver was in flight: no sequential order of the "
+            "two calls gives that answer (" + str(obs) + ")")
     if line.startswith("(setexcl"):
         return None if obs == "excl overlapped=0" else (
             "operations on a synchronized set overlapped: after a second Synchronize()/a refused WithLock() a Len "
